@@ -6,7 +6,7 @@ possibly naming keys set by the same call.  Oracle (reference model written from
 replaced, tags/fields merged key by key, unset wins, return value = number of points whose content changed, everything else and the
 storage order untouched.  Invalid static argument sets must raise and change nothing.
 """
-from .. import histcheck
+from .. import histcheck, lockstep
 
 ID = "C03"
 LEVEL = "exploration"
@@ -38,8 +38,11 @@ def classify(ls, ops):
 
 
 HOOKS = (hook,)
-run_shard = histcheck.make_run_shard("update", classify, HOOKS)
-replay = histcheck.make_replay(HOOKS)
+# a fifth configuration with a non-default text encoding: a rewrite stages the surviving rows in a second file, which has to be
+# written and read back under the same storage options as the database itself (utf-16 can encode every generated string)
+CONFIGS5 = lockstep.CONFIGS + [("csv", True, {"encoding": "utf-16"}, ":utf16")]
+run_shard = histcheck.make_run_shard("update", classify, HOOKS, configs=CONFIGS5)
+replay = histcheck.make_replay(HOOKS, configs=CONFIGS5)
 
 
 def shards(tier):
